@@ -10,10 +10,15 @@
 // Script steps (any sub-list of a script is a valid script):
 //
 //	new v1 v2 …   (first line) construct with NewLinkedList(v1, v2, …); default: NewLinkedList()
+//	tight         (before the first `go`) no random delays around the calls: the workers hammer the list
 //	hold          (first or second line) workers do not start before `start`
 //	start         let the workers run
 //	go k OP [v]   append a call to the work list of worker k (0..3);
 //	              OP = push v | pushfront v | pop | peek | peektail | isempty | reset
+//	envrlock      the harness itself takes l.mtx.RLock() (it reaches the unexported field by reflection;
+//	              skipped if there is no sync.RWMutex field `mtx`) and then logs `env rlock`
+//	envrunlock    logs `env runlock`, then releases the read lock
+//	settle        sleep ~300 µs (lets calls that do not need the write lock return inside the window)
 //	wait k        wait (bounded) until worker k has finished everything handed to it so far
 //	waitall       the same for all workers
 //	pause         sleep a few microseconds
@@ -21,23 +26,30 @@
 // At the end the workers are joined and the director pops (logged as ordinary calls) until Pop
 // reports false: lost or duplicated elements become visible in the history.
 //
-// History lines: `inv t new v…`, `inv t push v`, `inv t pushfront v`, `inv t pop|peek|peektail|isempty|reset`,
+// While the harness holds the read lock every method of the current code blocks (they all take the
+// write lock); a mutating method downgraded to RLock returns inside the window, which the model
+// rejects deterministically.
+//
+// History lines: `env rlock`, `env runlock`, `inv t new v…`, `inv t push v`, `inv t pushfront v`, `inv t pop|peek|peektail|isempty|reset`,
 // `ret t ack`, `ret t val v true|false`, `ret t empty true|false`, `ret t panic`.
 package linkedlist
 
 import (
 	"fmt"
 	"math/rand"
+	"reflect"
 	"runtime"
+	"sort"
 	"strconv"
 	"strings"
 	"sync"
+	"sync/atomic"
 	"time"
+	"unsafe"
 
 	"github.com/aperturerobotics/util/linkedlist"
 
 	"verifharness/comp"
-	"verifharness/hist"
 )
 
 const nWorkers = 4
@@ -112,43 +124,148 @@ func (w *worker) waitDone(n int, d time.Duration) bool {
 	}
 }
 
-// call performs one logged call; it returns (value, ok) for the value-returning methods.
-func call(log *hist.Log, l *linkedlist.LinkedList[int], o op) (v int, ok bool) {
-	var id int
-	switch o.name {
-	case "push", "pushfront":
-		id = log.Inv("%s %d", o.name, o.v)
-	default:
-		id = log.Inv("%s", o.name)
+var spinSink atomic.Int64
+
+// spin busy-waits for about n loop iterations (sub-microsecond delays; time.Sleep is too coarse).
+func spin(n int) {
+	for i := 0; i < n; i++ {
+		spinSink.Add(1)
 	}
+}
+
+// stampLog is a totally ordered log without a lock: every event takes a stamp from one atomic
+// counter (inv: before the real call, ret: after it returned) and is stored in a buffer private to
+// the logging goroutine. The history is the merge of the buffers in stamp order; call ids are
+// allocated in the order of the inv stamps. (With hist.Log's mutex the goroutines queue up on the
+// log and the ~50 ns method calls practically never overlap; a fetch-and-add does not park anyone.)
+type stampLog struct {
+	ctr atomic.Int64
+}
+
+type stampEv struct {
+	stamp int64
+	env   bool // environment action: kind is the whole text after `env `
+	inv   bool
+	key   int    // identifies the call: buffer index * 1e6 + sequence number
+	kind  string // inv: method name (or the whole `new …` text); ret: "ack" | "val" | "empty" | "panic"
+	v     int
+	b     bool
+}
+
+func (e stampEv) text() string {
+	if e.inv {
+		if e.kind == "push" || e.kind == "pushfront" {
+			return fmt.Sprintf("%s %d", e.kind, e.v)
+		}
+		return e.kind
+	}
+	switch e.kind {
+	case "val":
+		return fmt.Sprintf("val %d %t", e.v, e.b)
+	case "empty":
+		return fmt.Sprintf("empty %t", e.b)
+	}
+	return e.kind
+}
+
+type stampBuf struct {
+	l    *stampLog
+	base int
+	n    int
+	evs  []stampEv
+}
+
+func (l *stampLog) buf(index int) *stampBuf {
+	return &stampBuf{l: l, base: index * 1000000, evs: make([]stampEv, 0, 64)}
+}
+
+func (b *stampBuf) inv(kind string, v int) int {
+	key := b.base + b.n
+	b.n++
+	b.evs = append(b.evs, stampEv{stamp: b.l.ctr.Add(1), inv: true, key: key, kind: kind, v: v})
+	return key
+}
+
+func (b *stampBuf) ret(key int, kind string, v int, ok bool) {
+	b.evs = append(b.evs, stampEv{stamp: b.l.ctr.Add(1), key: key, kind: kind, v: v, b: ok})
+}
+
+func (b *stampBuf) envEv(what string) {
+	b.evs = append(b.evs, stampEv{stamp: b.l.ctr.Add(1), env: true, kind: what})
+}
+
+// listMutex returns the list's unexported RWMutex, or nil if the struct no longer has one.
+func listMutex(l *linkedlist.LinkedList[int]) *sync.RWMutex {
+	f := reflect.ValueOf(l).Elem().FieldByName("mtx")
+	if !f.IsValid() || !f.CanAddr() || f.Type() != reflect.TypeOf(sync.RWMutex{}) {
+		return nil
+	}
+	return (*sync.RWMutex)(unsafe.Pointer(f.UnsafeAddr()))
+}
+
+// merge produces the history lines.
+func merge(bufs []*stampBuf) []string {
+	var all []stampEv
+	for _, b := range bufs {
+		all = append(all, b.evs...)
+	}
+	sort.Slice(all, func(i, j int) bool { return all[i].stamp < all[j].stamp })
+	ids := map[int]int{}
+	lines := make([]string, 0, len(all))
+	for _, e := range all {
+		if e.env {
+			lines = append(lines, "env "+e.kind)
+		} else if e.inv {
+			ids[e.key] = len(ids)
+			lines = append(lines, fmt.Sprintf("inv %d %s", ids[e.key], e.text()))
+		} else {
+			lines = append(lines, fmt.Sprintf("ret %d %s", ids[e.key], e.text()))
+		}
+	}
+	return lines
+}
+
+// call performs one logged call; it returns (value, ok) for the value-returning methods.
+// pre/post are busy-wait lengths between the `inv` stamp and the call, and between the call and the
+// `ret` stamp: they widen the window in which other goroutines' calls overlap this one.
+func call(log *stampBuf, l *linkedlist.LinkedList[int], o op, pre, post int) (v int, ok bool) {
+	id := log.inv(o.name, o.v)
 	defer func() {
 		if r := recover(); r != nil {
-			log.Ret(id, "panic")
+			log.ret(id, "panic", 0, false)
 			v, ok = 0, false
 		}
 	}()
+	spin(pre)
 	switch o.name {
 	case "push":
 		l.Push(o.v)
-		log.Ret(id, "ack")
+		spin(post)
+		log.ret(id, "ack", 0, false)
 	case "pushfront":
 		l.PushFront(o.v)
-		log.Ret(id, "ack")
+		spin(post)
+		log.ret(id, "ack", 0, false)
 	case "reset":
 		l.Reset()
-		log.Ret(id, "ack")
+		spin(post)
+		log.ret(id, "ack", 0, false)
 	case "pop":
 		v, ok = l.Pop()
-		log.Ret(id, "val %d %t", v, ok)
+		spin(post)
+		log.ret(id, "val", v, ok)
 	case "peek":
 		v, ok = l.Peek()
-		log.Ret(id, "val %d %t", v, ok)
+		spin(post)
+		log.ret(id, "val", v, ok)
 	case "peektail":
 		v, ok = l.PeekTail()
-		log.Ret(id, "val %d %t", v, ok)
+		spin(post)
+		log.ret(id, "val", v, ok)
 	case "isempty":
 		e := l.IsEmpty()
-		log.Ret(id, "empty %t", e)
+		spin(post)
+		log.ret(id, "empty", 0, e)
 	}
 	return v, ok
 }
@@ -162,7 +279,9 @@ func validOp(name string) bool {
 }
 
 func exec(script []string, opt comp.Options) comp.Result {
-	log := hist.New()
+	slog := &stampLog{}
+	dlog := slog.buf(nWorkers) // the director's buffer
+	bufs := []*stampBuf{dlog}
 	tags := comp.TagSet{}
 	rng := rand.New(rand.NewSource(opt.Seed ^ 0x11ed))
 
@@ -186,9 +305,9 @@ func exec(script []string, opt comp.Options) comp.Result {
 		for _, v := range initial {
 			parts = append(parts, strconv.Itoa(v))
 		}
-		id := log.Inv("%s", strings.Join(parts, " "))
+		id := dlog.inv(strings.Join(parts, " "), 0)
 		l = linkedlist.NewLinkedList(initial...)
-		log.Ret(id, "ack")
+		dlog.ret(id, "ack", 0, false)
 	}
 	if len(initial) > 0 {
 		tags.Add("initial-elems")
@@ -196,16 +315,40 @@ func exec(script []string, opt comp.Options) comp.Result {
 
 	workers := make([]*worker, nWorkers)
 	handed := make([]int, nWorkers)
-	startCh := make(chan struct{})
+	// the workers spin on the flag (a channel wake-up takes longer than a whole work list)
+	var startFlag atomic.Bool
 	started := false
 	start := func() {
 		if !started {
 			started = true
-			close(startCh)
+			startFlag.Store(true)
 		}
 	}
-	if len(rest) == 0 || strings.TrimSpace(rest[0]) != "hold" {
+	held := false
+	for _, ln := range rest {
+		f := strings.Fields(ln)
+		if len(f) == 0 || f[0] == "tight" {
+			continue
+		}
+		held = f[0] == "hold"
+		break
+	}
+	if !held {
 		start()
+	}
+	tight := false
+	for _, ln := range rest {
+		if f := strings.Fields(ln); len(f) > 0 {
+			if f[0] == "tight" {
+				tight = true
+			}
+			if f[0] == "go" {
+				break
+			}
+		}
+	}
+	if tight {
+		tags.Add("tight")
 	}
 	var wg sync.WaitGroup
 	var cntMu sync.Mutex
@@ -214,22 +357,37 @@ func exec(script []string, opt comp.Options) comp.Result {
 		w := newWorker()
 		workers[k] = w
 		wrng := rand.New(rand.NewSource(opt.Seed*31 + int64(k)))
+		log := slog.buf(k)
+		bufs = append(bufs, log)
 		wg.Add(1)
 		go func() {
 			defer wg.Done()
-			<-startCh
+			for spins := 0; !startFlag.Load(); spins++ {
+				if spins%64 == 63 {
+					runtime.Gosched()
+				}
+			}
 			for i := 0; ; i++ {
 				o, ok := w.next(i)
 				if !ok {
 					return
 				}
-				switch wrng.Intn(6) {
-				case 0:
-					time.Sleep(time.Duration(wrng.Intn(60)) * time.Microsecond)
-				case 1, 2:
-					runtime.Gosched()
+				pre, post := 0, 0
+				if !tight {
+					switch wrng.Intn(12) {
+					case 0:
+						time.Sleep(time.Duration(wrng.Intn(40)) * time.Microsecond)
+					case 1, 2:
+						runtime.Gosched()
+					}
+					if wrng.Intn(3) != 0 {
+						pre = wrng.Intn(120)
+					}
+					if wrng.Intn(3) == 0 {
+						post = wrng.Intn(60)
+					}
 				}
-				_, got := call(log, l, o)
+				_, got := call(log, l, o, pre, post)
 				cntMu.Lock()
 				switch {
 				case o.name == "pop" && !got:
@@ -245,6 +403,15 @@ func exec(script []string, opt comp.Options) comp.Result {
 		}()
 	}
 
+	mtx := listMutex(l)
+	envHeld := false
+	envUnlock := func() {
+		if envHeld {
+			dlog.envEv("runlock") // logged before the release
+			mtx.RUnlock()
+			envHeld = false
+		}
+	}
 	total := len(initial)
 	for _, stepLine := range rest {
 		f := strings.Fields(stepLine)
@@ -275,15 +442,29 @@ func exec(script []string, opt comp.Options) comp.Result {
 				total++
 			}
 			handed[k] = workers[k].add(o)
+		case "envrlock":
+			if mtx != nil && !envHeld {
+				mtx.RLock()
+				dlog.envEv("rlock") // logged after the acquisition
+				envHeld = true
+				tags.Add("env-rlock")
+			}
+		case "envrunlock":
+			envUnlock()
+		case "settle":
+			time.Sleep(300 * time.Microsecond)
 		case "wait":
 			if len(f) < 2 {
 				continue
+			}
+			if envHeld {
+				continue // everything is blocked behind the environment's read lock
 			}
 			if k, err := strconv.Atoi(f[1]); err == nil && k >= 0 && k < nWorkers && started {
 				workers[k].waitDone(handed[k], 100*time.Millisecond)
 			}
 		case "waitall":
-			if started {
+			if started && !envHeld {
 				for k, w := range workers {
 					w.waitDone(handed[k], 100*time.Millisecond)
 				}
@@ -293,6 +474,7 @@ func exec(script []string, opt comp.Options) comp.Result {
 		}
 	}
 	start()
+	envUnlock()
 	for _, w := range workers {
 		w.close()
 	}
@@ -302,12 +484,12 @@ func exec(script []string, opt comp.Options) comp.Result {
 	case <-joined:
 	case <-time.After(3 * time.Second):
 		tags.Add("leaked-goroutine")
-		return comp.Result{History: log.Lines(), Tags: tags.List(), Unstable: true}
+		return comp.Result{History: nil, Tags: tags.List(), Unstable: true}
 	}
 	// drain sequentially
 	drained := 0
 	for i := 0; i <= total+1; i++ {
-		_, ok := call(log, l, op{name: "pop"})
+		_, ok := call(dlog, l, op{name: "pop"}, 0, 0)
 		if !ok {
 			break
 		}
@@ -325,7 +507,7 @@ func exec(script []string, opt comp.Options) comp.Result {
 	if drained > 0 {
 		tags.Add("drained")
 	}
-	lines := log.Lines()
+	lines := merge(bufs)
 	pending := 0
 	for _, ln := range lines {
 		if strings.HasPrefix(ln, "inv ") {
@@ -349,11 +531,33 @@ func exec(script []string, opt comp.Options) comp.Result {
 	return comp.Result{History: lines, Tags: tags.List()}
 }
 
+func genOp(rng *rand.Rand, k int, nextV *int, wPush, wFront, wPop, wPeek, wTail, wEmpty, wReset int) string {
+	x := rng.Intn(wPush + wFront + wPop + wPeek + wTail + wEmpty + wReset)
+	switch {
+	case x < wPush:
+		*nextV++
+		return fmt.Sprintf("go %d push %d", k, *nextV-1)
+	case x < wPush+wFront:
+		*nextV++
+		return fmt.Sprintf("go %d pushfront %d", k, *nextV-1)
+	case x < wPush+wFront+wPop:
+		return fmt.Sprintf("go %d pop", k)
+	case x < wPush+wFront+wPop+wPeek:
+		return fmt.Sprintf("go %d peek", k)
+	case x < wPush+wFront+wPop+wPeek+wTail:
+		return fmt.Sprintf("go %d peektail", k)
+	case x < wPush+wFront+wPop+wPeek+wTail+wEmpty:
+		return fmt.Sprintf("go %d isempty", k)
+	default:
+		return fmt.Sprintf("go %d reset", k)
+	}
+}
+
 func gen(rng *rand.Rand, tier string) []string {
 	nw := 2 + rng.Intn(3)
-	maxOps := 14 + rng.Intn(12)
+	maxOps := 10 + rng.Intn(12)
 	if tier == "thorough" {
-		maxOps = 16 + rng.Intn(16)
+		maxOps = 10 + rng.Intn(16)
 	}
 	if maxOps > nw*12-2 {
 		maxOps = nw*12 - 2
@@ -369,14 +573,16 @@ func gen(rng *rand.Rand, tier string) []string {
 		}
 		out = append(out, strings.Join(parts, " "))
 	}
-	if rng.Intn(3) != 0 {
+	burst := rng.Intn(3) != 0
+	if burst && rng.Intn(2) == 0 {
+		out = append(out, "tight")
+	}
+	if burst || rng.Intn(2) == 0 {
 		out = append(out, "hold")
 	}
-	burst := rng.Intn(2) == 0
 	// operation weights vary per scenario
 	wPush, wFront, wPop := 20+rng.Intn(25), 5+rng.Intn(20), 15+rng.Intn(25)
 	wPeek, wTail, wEmpty, wReset := 5+rng.Intn(10), 5+rng.Intn(10), 3+rng.Intn(8), rng.Intn(6)
-	sum := wPush + wFront + wPop + wPeek + wTail + wEmpty + wReset
 	counts := make([]int, nw)
 	for n := 0; n < maxOps && len(out) < 120; {
 		r := rng.Intn(100)
@@ -388,32 +594,27 @@ func gen(rng *rand.Rand, tier string) []string {
 			}
 			counts[k]++
 			n++
-			x := rng.Intn(sum)
-			switch {
-			case x < wPush:
-				out = append(out, fmt.Sprintf("go %d push %d", k, nextV))
-				nextV++
-			case x < wPush+wFront:
-				out = append(out, fmt.Sprintf("go %d pushfront %d", k, nextV))
-				nextV++
-			case x < wPush+wFront+wPop:
-				out = append(out, fmt.Sprintf("go %d pop", k))
-			case x < wPush+wFront+wPop+wPeek:
-				out = append(out, fmt.Sprintf("go %d peek", k))
-			case x < wPush+wFront+wPop+wPeek+wTail:
-				out = append(out, fmt.Sprintf("go %d peektail", k))
-			case x < wPush+wFront+wPop+wPeek+wTail+wEmpty:
-				out = append(out, fmt.Sprintf("go %d isempty", k))
-			default:
-				out = append(out, fmt.Sprintf("go %d reset", k))
+			out = append(out, genOp(rng, k, &nextV, wPush, wFront, wPop, wPeek, wTail, wEmpty, wReset))
+		case r < 82 && !burst && n+3 <= maxOps:
+			// a window in which the harness holds the list's read lock
+			out = append(out, "start", "envrlock")
+			for i, m := 0, 1+rng.Intn(3); i < m; i++ {
+				k := rng.Intn(nw)
+				if counts[k] >= 12 {
+					continue
+				}
+				counts[k]++
+				n++
+				out = append(out, genOp(rng, k, &nextV, wPush, wFront, wPop, wPeek, wTail, wEmpty, wReset))
 			}
+			out = append(out, "settle", "envrunlock")
 		case r < 86 && !burst:
 			out = append(out, "pause")
 		case r < 91 && !burst:
 			out = append(out, fmt.Sprintf("wait %d", rng.Intn(nw)))
 		case r < 94 && !burst:
 			out = append(out, "waitall")
-		default:
+		case !burst:
 			out = append(out, "start")
 		}
 	}
@@ -433,6 +634,9 @@ func init() {
 			{"go 0 pushfront 1", "go 0 peektail", "go 0 push 2", "go 0 peek", "go 0 pop", "go 0 pop", "go 0 pop", "waitall"},
 			// Reset then Push/PushFront
 			{"new 1 2 3", "go 0 reset", "go 0 peektail", "go 0 push 4", "go 0 pushfront 5", "go 0 peektail", "go 0 pop", "go 0 pop", "go 0 pop", "waitall"},
+			// every method invoked while the harness holds the list's read lock: none may take effect before the unlock
+			{"new 1 2", "envrlock", "go 0 push 3", "go 1 pop", "go 2 pushfront 4", "go 3 reset", "settle", "envrunlock", "waitall", "go 0 peek", "go 0 pop", "go 0 pop", "waitall"},
+			{"go 0 push 1", "wait 0", "envrlock", "go 0 peek", "go 1 peektail", "go 2 isempty", "go 3 pop", "settle", "envrunlock", "waitall"},
 			// concurrent pops and pushes
 			{"new 1 2 3", "hold", "go 0 pop", "go 1 pop", "go 2 pop", "go 3 pop", "go 0 push 4", "go 1 pushfront 5", "go 2 peek", "go 3 peektail", "go 0 pop", "go 1 pop", "start", "waitall"},
 		},
